@@ -701,3 +701,26 @@ def gen_init_orders(rng, variant='exc', alloc=False, fill=None):
     for i in range(8):
         S.append(['select', 'd', 'cxx', 'h%d' % i]); S.append(['name', 'd', 'c'])
     return Execution(S, variant=variant, alloc=alloc, fill=fill, label='init_orders')
+
+
+def gen_default_values(rng, sol, npts=4, variant='exc', evaluators=None):
+    """the library's own default parameters (what every test and example of the repository uses), every provided
+    evaluator at random points, both precisions -- judged by the oracle like any other assignment"""
+    e = CAT[sol]
+    caps = [tuple(c) for c in e['caps']] if evaluators is None else evaluators
+    S = []
+    cbk = ['arr', hexf(1.5), hexf(0.5), hexf(2.0)]
+    for p in ('d', 'ld'):
+        S.append(['init', p, 'cxx', 'dflt', sol])
+        S += [['getp', p, 'cxx', k] for k in e['pars']] + [['getv', p, 'cxx', k] for k in e['vecs']]   # binds the defaults
+        if sol == 'euler_chem_1d':      # the model has R_N2 = R_N/2; the default R_N2 = 0.4 is not (DESIGN.md section 7)
+            S.append(['setp', p, 'cxx', 'R_N2', hexf(defaults(sol)['R_N'] / 2.0)])
+    for _ in range(npts):
+        for fn, sig in caps:
+            pt = value_point(rng, sol, sig)
+            di = rng.randint(0, 20) if sol == 'cp_normal' else rng.randint(-1, e['dim'] + 2)
+            for p in ('d', 'ld'):
+                S.append(eval_line(p, 'cxx', fn, sig, pt, di, cbk))
+    ex = Execution(S, variant=variant, label='defaults:%s' % sol)
+    ex.oracle = True
+    return ex
